@@ -3,7 +3,8 @@ extension grammar (4.2) in which every construct that is stashed during conversi
 references, autolinks, entities, inline tags, footnote references, wikilinks, attribute lists, fences, raw blocks)
 is nested in every slot another construct offers (link text, destination, title, alt, label, heading, cell, item, term,
 definition, footnote body, admonition title; in the lazy continuation line of a list item that begins with a heading or a rule, inside
-emphasis nested three deep by one match -- `nested3`), plus soups dense in the same tokens.  Everything from `rng`.
+emphasis nested three deep by one match -- `nested3`; `[[...]]` wikilink brackets around code spans, escapes, entities, links, autolinks,
+inline tags -- `wikilink`), plus soups dense in the same tokens.  Everything from `rng`.
 Inputs never contain STX/ETX and never spell a placeholder stem."""
 from . import common as G
 
@@ -77,11 +78,29 @@ def inline(rng, depth=0, html=True, ext=True, nobr=False):
     if not ext:
         return w(rng)
     if r < 0.93: return rng.choice(['[^1]', '[^2]', '[^1]', '[^nodef]'])
-    if r < 0.95: return '[[' + rng.choice(['w', 'a b', w(rng), '*e*', 'x_y']) + ']]'
+    if r < 0.95: return wikilink(rng, sub)
     if r < 0.98:
         inner = rng.choice(['*e*', '**s**', '`c`', '[l](u)', '![i](s)', '_e_', '[l][r1]']) if rng.random() < 0.8 else sub()
         return inner + rng.choice(ATTRL)
     return rng.choice(['"q"', "'s'", 'a -- b', 'a --- b', '...', '<<g>>' if html else '--', "it's", 'ABBR', 'HTML'])
+
+
+WIKI_INNER = ['`make`', '`a_b`', '``c`d``', '\\*', '\\_', '\\]', '\\\\', '&amp;', '&#38;', '&', '*e*', '**s**', '_e_', '[l](u)', '![i](s)', '[r1]', '[^1]', '<b>', '<http://a.b/c>', '"q"', "it's",
+              'ABBR', 'x_y', 'a-b', '{: #i }']
+
+
+def wikilink(rng, sub=None):
+    """`[[label]]`: plain labels (the documented class: word characters, digits, `_`, space, `-`) and labels AROUND inline markup that is stashed
+    before the wikilink pattern runs -- code spans, backslash escapes, entities, links, autolinks, inline tags: no link on the unchanged
+    tree (the label class excludes the placeholder's STX and `:`), the brackets stay text and the inner construct is rendered"""
+    k = rng.random()
+    if k < 0.3: return '[[' + rng.choice(['w', 'a b', w(rng), 'x_y', 'Wiki Page', 'a-b 1', 'é']) + ']]'
+    inner = rng.choice(WIKI_INNER) if (sub is None or rng.random() < 0.85) else sub()
+    if k < 0.55: return '[[' + inner + ']]'
+    pre = rng.choice(['the ', 'a', 'x y ', 'see_', '', ' '])
+    post = rng.choice([' tool', 'b', ' y', '_z', '', ' '])
+    if k < 0.9: return '[[' + pre + inner + post + ']]'
+    return '[[' + pre + inner + ' ' + rng.choice(WIKI_INNER) + post + ']]'
 
 
 def nested3(rng, html=True, ext=True):
